@@ -85,6 +85,7 @@ type Config struct {
 	held        map[*Cell]*Term // ghost lockset: mutex cell -> BV2 mode (0 none, 1 read, 2 write)
 	done        bool
 	feasChecked int
+	panicAt     string // where the panic being unwound was raised (for reporting)
 	atomic      int // >0: inside verifAtomic (visible ops run inline)
 	inHook      int
 	ok          []int
@@ -895,12 +896,14 @@ func (e *Engine) raise(c *Config, cond *Term, what string) {
 	pf.pending = nil
 	pf.mode = modeUnwinding
 	pf.panicVal = runtimeErrVal(what)
+	pc.panicAt = e.posOf(c)
 	e.enqueue(pc)
 	c.g = And(c.g, Not(cond))
 }
 
 func (e *Engine) raiseVal(c *Config, v Value) {
 	f := c.top()
+	c.panicAt = e.posOf(c)
 	f.mode = modeUnwinding
 	f.panicVal = v
 }
@@ -944,7 +947,7 @@ func (e *Engine) unwindStep(c *Config) bool {
 		f.onUnwind(e, c)
 	}
 	if len(c.stack) == 0 {
-		e.crashes = append(e.crashes, Obl{ID: "panic", G: c.g, Cond: TS.False, Pos: c.gor.name + ": " + panicStr(pv), Step: e.step})
+		e.crashes = append(e.crashes, Obl{ID: "panic", G: c.g, Cond: TS.False, Pos: c.gor.name + ": " + panicStr(pv) + " raised at " + c.panicAt, Step: e.step})
 		c.done = true
 		e.goroutineDone(c)
 		c.g = TS.False
@@ -1078,11 +1081,23 @@ func (e *Engine) feasibleBatch(gs []*Term) []bool {
 	}
 	for i := 0; i < k; i++ {
 		if e.feasPool[i] == nil || e.feasPool[i].dead {
-			sv, err := NewSolver("z3-new", "")
+			lp := ""
+			if i == 0 {
+				lp = os.Getenv("VERIF_FEASLOG")
+			}
+			var sv *Solver
+			var err error
+			if len(TS.ufs) == 0 {
+				sv, err = NewIncrSolver(lp)
+			} else {
+				sv, err = NewSolver("z3-new", lp)
+				if sv != nil {
+					sv.useTac = true
+				}
+			}
 			if err != nil {
 				return res
 			}
-			sv.useTac = true
 			e.feasPool[i] = sv
 		}
 	}
